@@ -3,6 +3,8 @@
 package geom
 
 func init() {
+	vfHarnesses["C12_classify_hunt"] = vfhC12ClassifyHunt
+	vfHarnesses["C12_relations_hunt"] = vfhC12RelationsHunt
 	vfHarnesses["C12_envelope_algebra"] = vfhC12EnvelopeAlgebra
 	vfHarnesses["C12_geometry_envelopes"] = vfhC12GeometryEnvelopes
 	vfHarnesses["C12_envelope_distance"] = vfhC12EnvelopeDistance
@@ -137,5 +139,60 @@ func vfhC12GeometryEnvelopes() {
 	vfAssert(NewEmptyPoint(ct).Envelope().IsEmpty() && LineString{}.Envelope().IsEmpty() && Polygon{}.Envelope().IsEmpty() &&
 		MultiPoint{}.Envelope().IsEmpty() && GeometryCollection{}.Envelope().IsEmpty() && Geometry{}.Envelope().IsEmpty(), "empty geometries have empty envelopes")
 	vfAssert(!vfPointXY(a).Envelope().IsEmpty(), "non-empty geometry has a non-empty envelope")
+	vfReach("end")
+}
+
+// Envelope classification for ALL finite float64 corner values (FP theory,
+// precise multiplication in hunt mode): exactly one of IsEmpty / IsPoint /
+// IsLine / IsRectangle holds and it is the one the closed-interval definition
+// gives (comparisons of the corner ordinates), AsGeometry has the matching
+// type, Covers/Contains of the corners hold.
+func vfhC12ClassifyHunt() {
+	a := XY{vfFloat64("a.x"), vfFloat64("a.y")}
+	b := XY{vfFloat64("b.x"), vfFloat64("b.y")}
+	vfAssume(vfAnd(vfAnd(vfFinite(a.X), vfFinite(a.Y)), vfAnd(vfFinite(b.X), vfFinite(b.Y))))
+	e := NewEnvelope(a, b)
+	mn, mx, ok := e.MinMaxXYs()
+	vfAssert(ok && !e.IsEmpty(), "not empty")
+	dx, dy := mn.X != mx.X, mn.Y != mx.Y
+	isPt := vfAnd(!dx, !dy)
+	isRect := vfAnd(dx, dy)
+	isLn := vfAnd(!isPt, !isRect)
+	vfAssert(e.IsPoint() == isPt, "IsPoint iff both intervals are degenerate")
+	vfAssert(e.IsLine() == isLn, "IsLine iff exactly one interval is degenerate")
+	vfAssert(e.IsRectangle() == isRect, "IsRectangle iff neither interval is degenerate")
+	g := e.AsGeometry()
+	vfAssert(g.IsPoint() == isPt && g.IsLineString() == isLn && g.IsPolygon() == isRect, "AsGeometry type follows the classification")
+	vfAssert(e.Contains(a) && e.Contains(b), "the corners are contained")
+	vfAssert(vfAnd(mn.X <= mx.X, mn.Y <= mx.Y), "min <= max")
+	vfReach("end")
+}
+
+// Envelope order relations for ALL finite float64 corner values (FP theory):
+// Contains, Intersects, Covers and ExpandToIncludeEnvelope against the
+// closed-interval definition.
+func vfhC12RelationsHunt() {
+	a := XY{vfFloat64("a.x"), vfFloat64("a.y")}
+	b := XY{vfFloat64("b.x"), vfFloat64("b.y")}
+	vfAssume(vfAnd(vfAnd(vfFinite(a.X), vfFinite(a.Y)), vfAnd(vfFinite(b.X), vfFinite(b.Y))))
+	e := NewEnvelope(a, b)
+	mn, mx, _ := e.MinMaxXYs()
+	c := XY{vfFloat64("c.x"), vfFloat64("c.y")}
+	d := XY{vfFloat64("d.x"), vfFloat64("d.y")}
+	q := XY{vfFloat64("q.x"), vfFloat64("q.y")}
+	vfAssume(vfAnd(vfAnd(vfFinite(c.X), vfFinite(c.Y)), vfAnd(vfFinite(d.X), vfFinite(d.Y))))
+	vfAssume(vfAnd(vfFinite(q.X), vfFinite(q.Y)))
+	o := NewEnvelope(c, d)
+	omn, omx, _ := o.MinMaxXYs()
+	inE := vfAnd(vfAnd(mn.X <= q.X, q.X <= mx.X), vfAnd(mn.Y <= q.Y, q.Y <= mx.Y))
+	vfAssert(e.Contains(q) == inE, "Contains(q) iff q is in both closed intervals")
+	meet := vfAnd(vfAnd(mn.X <= omx.X, omn.X <= mx.X), vfAnd(mn.Y <= omx.Y, omn.Y <= mx.Y))
+	vfAssert(e.Intersects(o) == meet && o.Intersects(e) == meet, "Intersects iff the intervals overlap on both axes")
+	cov := vfAnd(vfAnd(mn.X <= omn.X, omx.X <= mx.X), vfAnd(mn.Y <= omn.Y, omx.Y <= mx.Y))
+	vfAssert(e.Covers(o) == cov, "Covers iff o's intervals are inside e's")
+	u := e.ExpandToIncludeEnvelope(o)
+	vfAssert(u.Covers(e) && u.Covers(o), "the expanded envelope covers both")
+	umn, umx, _ := u.MinMaxXYs()
+	vfAssert(vfAnd(vfOr(umn.X == mn.X, umn.X == omn.X), vfOr(umx.Y == mx.Y, umx.Y == omx.Y)), "and its ends are ends of the operands")
 	vfReach("end")
 }
